@@ -502,6 +502,6 @@ FLOOR = {"cli_reports": 60, "yaml_scalar": 5000}
 MANIFEST = {
     "category": "exploration",
     "technique": "Hypothesis-generated API behaviours and documents run through the real CLI with all three reports, files re-read with independent parsers and compared with the loopback server's log; round-trip fuzzing of the hand-written YAML scalar writer",
-    "text": "`st run --report junit,vcr,har` (with and without --report-preserve-bytes, 1-2 workers, phase subsets incl. stateful) runs in-process against a loopback API that answers with control characters, invalid UTF-8, U+FFFE/U+FFFF, NEL/LS/PS, BOM, latin-1 header values and dropped connections, for documents whose examples carry quotes and reserved characters; the JUnit, VCR and HAR files must parse with ElementTree / PyYAML / json, the answered exchanges must appear exactly once with the method, URL, status and (byte-exact or text-exact) body the server log shows, and the run must not print a handler error. The YAML scalar writer is additionally round-tripped through yaml.safe_load on generated text biased to special code points.",
+    "text": "`st run --report junit,vcr,har` (with and without --report-preserve-bytes, 1-2 workers, phase subsets incl. stateful) runs in-process against a loopback API that answers with control characters, invalid UTF-8, U+FFFE/U+FFFF, NEL/LS/PS, BOM, latin-1 header values and dropped connections, for documents whose examples carry quotes and reserved characters; the JUnit, VCR and HAR files must parse with ElementTree / PyYAML / json, the answered exchanges must appear exactly once with the method, URL, status and (byte-exact or text-exact) body the server log shows, and the run must not print a handler error. Path templates carry literal YAML-significant characters, the API names unknown and quoted charsets, sends Set-Cookie / Location / a header twice and changes its answer during the run (another media type under the same status, a late 5xx); the command line carries --header values with quotes and the base URL may hold credentials (sanitised runs). Two checks are enabled: the kinds of failure JUnit reports per operation and the check results of every cassette entry must be the ones the traffic implies (both directions), the recorded `command:` must round-trip, repeated headers must be complete in both files and the HAR's derived fields (content.mimeType, cookies, redirectURL) must agree with the headers. The YAML scalar writer is additionally round-tripped through yaml.safe_load on generated text biased to special code points.",
     "note": "The handler-level tier with hand-built recorders planned in DESIGN.md is replaced by end-to-end CLI runs; request bodies and header values inside the reports are not compared, only presence, method, URL, status and response body.",
 }
